@@ -26,7 +26,8 @@ type scenario struct {
 	ObsGapNs  int64 `json:"obsGapNs"`
 }
 
-var durs = []int64{1, 1000, 10000, 1000000, 5000000, 50000000}
+// whole and fractional milliseconds: a timer that rounds its wait must never round it down
+var durs = []int64{1, 1000, 10000, 1000000, 5000000, 50000000, 1300000, 10400000, 2499999}
 
 func gen(r *harn.Rng, tier string) interface{} {
 	sc := &scenario{}
